@@ -7,9 +7,10 @@ custom loader, custom loader in the persister only}, either by awaiting `Process
 classes of `harness/launcher_procs.py`; their class-level trace shows which process ran which user step and when.
 
 Line protocol (shared with `pmodel launcher`, see lean/Driver/Launcher.lean):
-  case <none|mem|pickle> <default|custom|split>
+  case <none|mem|pickle> <default|custom|split|custom+ctx|custom+ctxdefault|ctxloader|ctx>
   ckpt <Cls> <n|none> (<j> <tag|none>)+            harness-made checkpoints of ONE process after j `step()` iterations each
-  t <type|~> <A|N|X> <ident|~> <n|none|~> <persist|~> <nowait|~> <pid #k|?|~> <tag|none|~>
+  t <type|~> <A|N|X> <ident|~> <n|none|~> <persist|~> <nowait|~> <pid #k|?|~> <tag|none|~> <act ~|kill|resume>
+      (act: what the harness does to the process of the task once it WAITS, while the launcher awaits it or after the reply)
 observation of a task:  <reply> keys=<#k/tag,..> now=<#k:event,..> later=<#k:event,..>
 """
 import logging
@@ -32,8 +33,11 @@ ASSUMPTIONS = [
     'load_checkpoint of an absent key raises',
     'asyncio.ensure_future runs nothing before the launcher coroutine returns; one launcher, one loop, tasks one after the other '
     '(the loop is drained between two tasks)',
-    'loader configurations: none given, the same custom loader given to launcher and InMemoryPersister, custom loader in the '
-    'persister only; the launcher argument load_context is left at its default',
+    'loader configurations: none given; the same custom loader instance given to launcher and InMemoryPersister; custom loader in '
+    'the persister only; custom loader plus a caller-supplied load_context (without loader / carrying the default loader); loader '
+    'only inside the caller-supplied load_context; load_context without any loader',
+    'a waiting process (class Hold) is killed or resumed by the harness between two loop iterations once it is WAITING; a process '
+    'left waiting for ever is never generated',
     'the RabbitMQ transport is replaced by kiwipy.LocalCommunicator (offline)',
 ]
 TRUSTED = ['launcher model lean/PlumpyModel/Launcher/Model.lean (hand-written; compared with ProcessLauncher per task: reply, '
@@ -43,7 +47,12 @@ TRUSTED = ['launcher model lean/PlumpyModel/Launcher/Model.lean (hand-written; c
 T_FIELDS = ('type', 'ak', 'ident', 'n', 'persist', 'nowait', 'pid', 'tag')
 KNOWN_TYPES = ('launch', 'continue', 'create')
 CLASS_TOKENS = ('Out', 'Raise', 'Steps', 'Wait')
-CONFIGS = [(p, l) for p in ('none', 'mem', 'pickle') for l in ('default', 'custom', 'split') if not (p == 'none' and l == 'split')]
+# loader configuration -> (launcher gets loader=L, InMemoryPersister gets loader=L, caller-supplied load_context: None | 'plain'
+# (no loader in it) | 'default' (carries the default loader) | 'custom' (carries L))
+LOADER_CFG = {'default': (False, False, None), 'custom': (True, True, None), 'split': (False, True, None),
+              'custom+ctx': (True, True, 'plain'), 'custom+ctxdefault': (True, True, 'default'),
+              'ctxloader': (False, True, 'custom'), 'ctx': (False, False, 'plain')}
+CONFIGS = [(p, l) for p in ('none', 'mem', 'pickle') for l in LOADER_CFG if not (p == 'none' and l == 'split')]
 TIMEOUT = 20
 
 
@@ -70,12 +79,12 @@ def _init_worker():
 
 def parse_t(line):
     toks = line.split()
-    assert toks[0] == 't' and len(toks) == 9, line
-    return dict(zip(T_FIELDS, toks[1:]))
+    assert toks[0] == 't' and len(toks) == 10, line
+    return dict(zip(T_FIELDS + ('act',), toks[1:]))
 
 
 def t_line(op):
-    return 't ' + ' '.join(str(op[f]) for f in T_FIELDS)
+    return 't ' + ' '.join(str(op[f]) for f in T_FIELDS) + ' ' + op.get('act', '~')
 
 
 class Session:
@@ -88,17 +97,25 @@ class Session:
         self.loop = asyncio.new_event_loop()
         asyncio.set_event_loop(self.loop)
         lp.TRACE.clear()
-        self.custom = lp.CustomLoader() if loader_kind in ('custom', 'split') else None
+        to_launcher, to_persister, ctx_kind = LOADER_CFG[loader_kind]
+        self.custom = lp.make_custom() if (to_launcher or to_persister or ctx_kind == 'custom') else None
         self.dir = None
         if pers_kind == 'mem':
-            self.pers = plumpy.InMemoryPersister(loader=self.custom)
+            self.pers = plumpy.InMemoryPersister(loader=self.custom if to_persister else None)
         elif pers_kind == 'pickle':
             self.dir = os.path.join(scratch, uuid.uuid4().hex)
             self.pers = plumpy.PicklePersister(self.dir)
         else:
             self.pers = None
-        self.launcher = pc.ProcessLauncher(loop=self.loop, persister=self.pers,
-                                           loader=self.custom if loader_kind == 'custom' else None)
+        kw = {}
+        if ctx_kind == 'plain':
+            kw['load_context'] = plumpy.LoadSaveContext(loop=self.loop)
+        elif ctx_kind == 'default':
+            kw['load_context'] = plumpy.LoadSaveContext(loader=plumpy.get_object_loader(), loop=self.loop)
+        elif ctx_kind == 'custom':
+            kw['load_context'] = plumpy.LoadSaveContext(loader=self.custom, loop=self.loop)
+        self.launcher = pc.ProcessLauncher(loop=self.loop, persister=self.pers, loader=self.custom if to_launcher else None, **kw)
+        self.act = '~'          # what the harness does to the process of the task being received
         self.pids = []          # real pids in order of construction
         self.fake = {}          # pid reference that names no process -> a pid nobody has
         self.seen = 0           # TRACE entries already scanned for constructions
@@ -138,14 +155,17 @@ class Session:
         k, tag = key
         tr = self.lp.TRACE
         n = len(tr)
+        registered = dict(self.lp.INSTANCES)
         try:
             bundle = self.pers.load_checkpoint(self.pids[k], None if tag == '-' else tag)
-            proc = bundle.unbundle(self.w['plumpy'].LoadSaveContext(loader=self.lp.CustomLoader(), loop=self.loop))
+            proc = bundle.unbundle(self.w['plumpy'].LoadSaveContext(loader=self.lp.make_custom(), loop=self.loop))
             return proc.state.value
         except Exception as e:  # noqa
             return f'unloadable:{type(e).__name__}'
         finally:
             del tr[n:]
+            self.lp.INSTANCES.clear()
+            self.lp.INSTANCES.update(registered)
 
     def real_pid(self, ref):
         if ref.startswith('#') and ref[1:].isdigit() and int(ref[1:]) < len(self.pids):
@@ -230,7 +250,7 @@ class Session:
     async def receive(self, communicator, task):
         tr = self.lp.TRACE
         self.scan()
-        rec = dict(op=self.decode_body(task), keys_before=self.keys(), start=len(tr))
+        rec = dict(op=dict(self.decode_body(task), act=self.act), keys_before=self.keys(), start=len(tr))
         self.records.append(rec)
         result, exc = None, None
         try:
@@ -281,6 +301,8 @@ class Session:
         saves = []
         for j, tag in zip(toks[3::2], toks[4::2]):
             while done < int(j) and not p.has_terminated():
+                if toks[1] == 'Hold' and p.state == self.w['plumpy'].ProcessState.WAITING:
+                    p.resume()
                 await p.step()
                 done += 1
             if self.pers is not None:
@@ -289,6 +311,7 @@ class Session:
         self.scan()
         del lp.TRACE[:]
         self.seen = 0
+        lp.INSTANCES.clear()
         return dict(kind='ckpt', pid=self.pidx(p.pid), saves=saves, cls=toks[1], n=0 if toks[2] == 'none' else int(toks[2]),
                     line=f"ckpt {self.pidx(p.pid)} keys={fmt(['#%d/%s' % k for k in self.keys()])}")
 
@@ -313,18 +336,51 @@ def run_case(job):
     asyncio = ss.w['asyncio']
     out = []        # (model input line, observation dict) in order
 
+    async def interfere(body, act, is_create):
+        """hand the task to the launcher and, while it is being awaited (or after its reply), kill / resume the process of the
+        task as soon as it is WAITING -- between two iterations of the loop, as any other user of the loop could"""
+        lp, waiting_state = ss.lp, ss.w['plumpy'].ProcessState.WAITING
+        lp.INSTANCES.clear()
+        task = asyncio.ensure_future(ss.receive(None, body))
+        applied = False
+        for _ in range(300):
+            await asyncio.sleep(0)
+            procs = list(lp.INSTANCES.values())
+            waiting = [p for p in procs if p.state == waiting_state]
+            if not applied and waiting:
+                await asyncio.sleep(0)
+                await asyncio.sleep(0)
+                if act == 'kill':
+                    waiting[-1].kill('stopped by the harness')
+                else:
+                    waiting[-1].resume()
+                applied = True
+            if task.done() and (is_create or all(p.has_terminated() for p in procs)):
+                break
+        if task.done():
+            task.exception()    # (recorded as the reply by `receive`)
+        else:
+            task.cancel()
+        lp.INSTANCES.clear()
+
     async def direct():
         for line in ops:
             toks = line.split()
             if toks[0] == 'ckpt':
                 out.append((line, await ss.ckpt(toks)))
                 continue
-            body = ss.build_body(parse_t(line))
+            op = parse_t(line)
+            body = ss.build_body(op)
             n0 = len(ss.records)
-            try:
-                await ss.receive(None, body)
-            except BaseException:  # noqa  (recorded as the reply)
-                pass
+            ss.act = op['act']
+            if op['act'] == '~':
+                try:
+                    await ss.receive(None, body)
+                except BaseException:  # noqa  (recorded as the reply)
+                    pass
+            else:
+                await interfere(body, op['act'], op['type'] == 'create')
+            ss.act = '~'
             drained = await ss.drain()
             ss.close_records(len(ss.lp.TRACE), drained)
             for rec in ss.records[n0:]:
@@ -355,10 +411,10 @@ def run_case(job):
                 kw = dict(init_kwargs=None if toks[2] == 'none' else {'inputs': {'n': int(toks[2])}})
             if toks[0] == 'L':      # L <Cls> <n> <persist> <nowait> <d|c>
                 coro = ctl.launch_process(lp.TOKENS[toks[1]], persist=toks[3] == '1', nowait=toks[4] == '1',
-                                          loader=lp.CustomLoader() if toks[5] == 'c' else None, **kw)
+                                          loader=lp.make_custom() if toks[5] == 'c' else None, **kw)
             elif toks[0] == 'X':    # X <Cls> <n> <nowait> <d|c>
                 coro = ctl.execute_process(lp.TOKENS[toks[1]], nowait=toks[3] == '1',
-                                           loader=lp.CustomLoader() if toks[4] == 'c' else None, **kw)
+                                           loader=lp.make_custom() if toks[4] == 'c' else None, **kw)
             elif toks[0] == 'C':    # C <pid> <tag> <nowait>
                 coro = ctl.continue_process(ss.real_pid(toks[1]), tag=None if toks[2] == 'none' else toks[2], nowait=toks[3] == '1')
             else:                   # R t …   (a raw body put on the task queue)
@@ -396,7 +452,7 @@ def run_case(job):
             if new:
                 new[-1]['controller_saw'] = seen
             else:
-                out.append(('t ~ N ~ ~ ~ ~ ~ ~', dict(kind='t', op=dict.fromkeys(T_FIELDS, '~'), line='no-task-received', reply='none',
+                out.append(('t ~ N ~ ~ ~ ~ ~ ~ ~', dict(kind='t', op=dict.fromkeys(T_FIELDS + ('act',), '~'), line='no-task-received', reply='none',
                                                      keys=[], keys_before=[], keys_after=[], now=[], later=[], probe={},
                                                      drained=True, via=line, controller_saw=seen)))
 
@@ -443,8 +499,17 @@ def monitor_case(pers, loader, obs):
     from harness import launcher_procs as lp
     fails = []
     ckpts = {}      # (pidref, tag) -> (class token of the saved process, n, position)   what SHOULD be stored
-    launch_loader = 'custom' if loader == 'custom' else 'default'
-    save_loader = 'custom' if (pers == 'mem' and loader in ('custom', 'split')) else 'default'
+    to_launcher, to_persister, ctx_kind = LOADER_CFG[loader]
+    launch_loader = 'custom' if to_launcher else 'default'
+    save_loader = 'custom' if (pers == 'mem' and to_persister) else 'default'
+    # the loader a continue task resolves the saved class name with: the configured one; else the one in the caller's
+    # load context; else a default-constructed instance of the class recorded in the bundle ('fresh'); else the default one
+    if to_launcher or ctx_kind == 'custom':
+        continue_loader = 'custom'
+    elif ctx_kind == 'default':
+        continue_loader = 'default'
+    else:
+        continue_loader = 'fresh' if save_loader == 'custom' else 'default'
 
     def bad(i, sig, clause, detail):
         fails.append((i, sig, clause, detail))
@@ -553,9 +618,17 @@ def monitor_case(pers, loader, obs):
                 continue
             saved_cls, n, pos = ckpts[key]
             ident = lp.ref_identify(save_loader, saved_cls)
-            load_loader = launch_loader if loader != 'split' else save_loader
-            run_cls = lp.ref_load(load_loader, ident)
+            run_cls = lp.ref_load(continue_loader, ident)
             pid = key[0]
+            if run_cls is None:
+                # the loader in force does not know the saved class name: an error, nothing else
+                if honoured or steps_all or new_keys or gone_keys or made:
+                    bad(i, 'unknown-class-executed', 'the configured loader resolves the class; a task that fails does nothing else', o['line'])
+                continue
+            if not made and not loaded and reply == 'err:ValueError' and inert:
+                bad(i, 'wrong-loader', 'the configured object loader is the one used (it knows the class name of the checkpoint)',
+                    dict(saved_as=ident, loader_in_force=continue_loader, expected=run_cls, line=o['line']))
+                continue
             if made or len(loaded) != 1 or loaded[0][0] != pid:
                 bad(i, 'not-the-checkpoint', 'continue resumes exactly the persisted process of the requested pid',
                     dict(requested=key, line=o['line']))
@@ -570,7 +643,8 @@ def monitor_case(pers, loader, obs):
                 bad(i, 'other-process-ran', 'only the process of the task runs', o['line'])
                 continue
         # --- launch / continue: what runs, when, and what is replied
-        want_steps = lp.remaining_steps(run_cls, pos)
+        act = op.get('act', '~')
+        want_steps = lp.remaining_steps(run_cls, pos, act)
         got = [e for _, e in steps_all]
         if got != want_steps:
             sig = 'launch-steps' if t == 'launch' else 'continue-not-from-checkpoint'
@@ -584,7 +658,7 @@ def monitor_case(pers, loader, obs):
             elif want_steps and [e for _, e in steps_now] == want_steps:
                 bad(i, 'nowait-waited', 'with nowait the id is returned immediately, not after the process has run', o['line'])
         else:
-            kind, val = lp.expected_outcome(run_cls, n, saved_cls, pos)
+            kind, val = lp.expected_outcome(run_cls, n, saved_cls, pos, act)
             want = ('out:' + ','.join(f'{k}={val[k]}' for k in sorted(val))) if kind == 'out' else f'err:{val}'
             if reply != want:
                 bad(i, 'reply-not-outcome', "without nowait the reply is the process's outputs or its error",
@@ -597,8 +671,8 @@ def monitor_case(pers, loader, obs):
 # ---------------------------------------------------------------------------------------------------------------------
 # generators
 
-def mk(type_='~', ak='A', ident='~', n='~', persist='~', nowait='~', pid='~', tag='~'):
-    return t_line(dict(type=type_, ak=ak, ident=ident, n=n, persist=persist, nowait=nowait, pid=pid, tag=tag))
+def mk(type_='~', ak='A', ident='~', n='~', persist='~', nowait='~', pid='~', tag='~', act='~'):
+    return t_line(dict(type=type_, ak=ak, ident=ident, n=n, persist=persist, nowait=nowait, pid=pid, tag=tag, act=act))
 
 
 IDENTS = ['d.Out', 'd.Raise', 'd.Steps', 'd.Wait', 'd.Bad', 'd.Alt', 'a.Out', 'a.Steps', 'a.Raise', 'u.x']
@@ -638,6 +712,20 @@ def systematic(configs):
                         h.append(mk('continue', pid='?', nowait=w, tag='t1'))
                         h.append(mk('continue', pid='#1', nowait=w, tag='none'))
                         cases.append((pers, loader, 'direct', h))
+        # a waiting process killed / resumed while the launcher awaits it (nowait=0) or after the reply (nowait=1)
+        for act in ('kill', 'resume'):
+            for w in '01':
+                for p in '01':
+                    cases.append((pers, loader, 'direct', [mk('launch', ident='d.Hold', n='6', persist=p, nowait=w, act=act)]))
+                cases.append((pers, loader, 'direct', [mk('create', ident='d.Hold', n='7', persist='1'),
+                                                       mk('continue', pid='#0', nowait=w, tag='none', act=act),
+                                                       mk('continue', pid='#0', nowait=w, act='resume' if act == 'kill' else 'kill'),
+                                                       mk('launch', ident='d.Out', n='1', persist='0', nowait=w, act=act)]))
+                for j in range(0, 5):
+                    cases.append((pers, loader, 'direct', [f'ckpt Hold 5 {j} t1 {min(j + 1, 4)} none',
+                                                           mk('continue', pid='#0', nowait=w, tag='t1', act=act),
+                                                           mk('continue', pid='#0', nowait=w, tag='none', act=act),
+                                                           mk('continue', pid='#0', nowait=w, tag='t2', act=act)]))
         # create then continue (what execute_process does), launch with persist then continue from its checkpoint
         for ident in ('d.Out', 'd.Steps', 'd.Wait', 'd.Raise', 'a.Out'):
             for w in '01':
@@ -653,26 +741,35 @@ def systematic(configs):
 
 def random_history(rng, length, controller=False):
     ops, made, tags = [], 0, {}      # tags: pid index -> tags that may exist
+    # a history with waiting (Hold) processes: every launch / continue task comes with what the harness does to the process
+    # once it waits, so that no process is left waiting for ever
+    hold = (not controller) and rng.random() < 0.3
+
+    def some_act():
+        if hold:
+            return rng.choice(['kill', 'resume'])
+        return '~' if rng.random() < 0.9 else rng.choice(['kill', 'resume'])
     for _ in range(length):
         r = rng.random()
         n = str(rng.randint(-2, 9))
         if r < 0.14:
-            cls = rng.choice(CLASS_TOKENS)
-            total = {'Out': 2, 'Raise': 2, 'Steps': 4, 'Wait': 4}[cls]
+            cls = rng.choice(CLASS_TOKENS + (('Hold', 'Hold') if hold else ()))
+            total = {'Out': 2, 'Raise': 2, 'Steps': 4, 'Wait': 4, 'Hold': 4}[cls]
             js = sorted(rng.randint(0, total + 1) for _ in range(rng.randint(1, 3)))
             tg = rng.sample(TAGS, len(js))
             ops.append(f'ckpt {cls} {n} ' + ' '.join(f'{j} {t}' for j, t in zip(js, tg)))
             tags[made] = tg
             made += 1
         elif r < 0.34:
-            ident = rng.choice(IDENTS[:4] + IDENTS if not controller else ['d.Out', 'd.Raise', 'd.Steps', 'd.Wait', 'a.Out', 'd.Bad'])
+            ident = rng.choice(IDENTS[:4] + IDENTS + (['d.Hold'] * 5 if hold else [])
+                               if not controller else ['d.Out', 'd.Raise', 'd.Steps', 'd.Wait', 'a.Out', 'd.Bad'])
             p = rng.choice('01')
             line = mk('create', ident=ident, n=rng.choice([n, n, 'none']), persist=p)
             ops.append(('R ' + line) if controller else line)
             tags[made] = ['none']     # (may not exist: the model and the monitor know)
             made += 1
         elif r < 0.60:
-            ident = rng.choice(IDENTS[:4] + IDENTS)
+            ident = rng.choice(IDENTS[:4] + IDENTS + (['d.Hold'] * 6 + ['a.Hold'] if hold else []))
             p, w = rng.choice('01'), rng.choice('01')
             if controller:
                 cls = rng.choice(CLASS_TOKENS + ('Bad',))
@@ -681,7 +778,7 @@ def random_history(rng, length, controller=False):
                 else:
                     ops.append(f'L {cls} {n} {p} {w} {rng.choice("dc")}')
             else:
-                ops.append(mk('launch', ident=ident, n=rng.choice([n, n, n, 'none', '~']), persist=p, nowait=w))
+                ops.append(mk('launch', ident=ident, n=rng.choice([n, n, n, 'none', '~']), persist=p, nowait=w, act=some_act()))
             tags[made] = ['none']
             made += 1
         elif r < 0.90:
@@ -695,7 +792,7 @@ def random_history(rng, length, controller=False):
             if controller:
                 ops.append(f'C {ref} {"none" if tg == "~" else tg} {w}')
             else:
-                ops.append(mk('continue', pid=ref, nowait=w, tag=tg))
+                ops.append(mk('continue', pid=ref, nowait=w, tag=tg, act=some_act()))
         elif r < 0.95:
             line = mk(rng.choice(['zzz', 'run', 'kill', '~', 'LAUNCH']), ak=rng.choice('AAN'), ident='d.Out', n=n,
                       persist=rng.choice('01'), nowait=rng.choice('01'))
@@ -714,8 +811,8 @@ def gen_cases(ctx):
     cases = systematic(CONFIGS)
     n_sys = len(cases)
     max_len = 20 if ctx.thorough else 6
-    n_direct = 80000 if ctx.thorough else 12000
-    n_ctl = 12000 if ctx.thorough else 2500
+    n_direct = 70000 if ctx.thorough else 9000
+    n_ctl = 10000 if ctx.thorough else 2000
     for _ in range(n_direct):
         pers, loader = rng.choice(CONFIGS)
         cases.append((pers, loader, 'direct', random_history(rng, rng.randint(1, max_len))))
